@@ -61,6 +61,8 @@ def install_ambient(seed, amb):
     import time
     rng = random.Random(seed ^ 0x5EED1D)
     real_id = builtins.id
+    import weakref
+    free = []            # simulated addresses of collected objects: the next object may get one of them, as with a real allocator
 
     def sim_id(o):
         if type(o).__module__.startswith("androguard"):
@@ -68,20 +70,28 @@ def install_ambient(seed, amb):
             if d is not None:
                 v = d.get("_verif_id")
                 if v is None:
-                    v = rng.getrandbits(47) << 4
+                    v = free.pop() if free else (rng.getrandbits(47) << 4)
                     try:
                         d["_verif_id"] = v
+                        weakref.finalize(o, free.append, v)
                     except TypeError:
                         return real_id(o)
                 return v
         return real_id(o)
     builtins.id = sim_id
+    # the clock of this simulated machine: start and SPEED are seeded (a slow or stalled machine sees seconds pass
+    # between two calls, a fast one microseconds); time(), monotonic() and perf_counter() all read it
     t0 = [float(amb.get("time_base", 1.6e9))]
+    step = float(amb.get("clock_step", 0.0137))
 
     def sim_time():
-        t0[0] += 0.0137
+        t0[0] += step
         return t0[0]
     time.time = sim_time
+    time.monotonic = lambda: sim_time() - 1.5e9
+    time.perf_counter = time.monotonic
+    time.time_ns = lambda: int(sim_time() * 1e9)
+    time.monotonic_ns = lambda: int((sim_time() - 1.5e9) * 1e9)
     for k in ("TZ", "LANG", "LC_ALL"):
         if amb.get(k):
             os.environ[k] = amb[k]
@@ -119,6 +129,19 @@ def main():
     from androguard.core.dex import DEX
     from androguard.decompiler.decompiler import DecompilerDAD
     from gen.source import load_raw
+    if job.get("prior_source"):
+        # earlier work of this process on ANOTHER file: parsed, partly decompiled, dropped and collected
+        pd = DEX(load_raw(job["prior_source"]))
+        pdx = Analysis(pd)
+        pdad = DecompilerDAD(pd, pdx)
+        for c in list(pd.get_classes())[:6]:
+            for m in list(c.get_methods())[:6]:
+                try:
+                    pdad.get_source_method(m)
+                except Exception:
+                    pass
+        del pd, pdx, pdad, c, m
+        gc.collect()
     raw = load_raw(job["source"])
     d = DEX(raw)
     dx = Analysis(d)
